@@ -61,6 +61,24 @@ def inRangeS (bits : Nat) (i : Int) : Bool :=
 
 def inRangeU (bits : Nat) (n : Nat) : Bool := decide (n < 2 ^ bits)
 
+/-- Number of binary digits of a natural number. -/
+def bitLen (n : Nat) : Nat := if n == 0 then 0 else Nat.log2 n + 1
+
+/-- Go's `float32(f)` on a fixed-point value (an integer count of 2⁻²⁰ units): round to 24 significant
+bits, ties to even. Exact for |fx| < 2²⁴; overflow to ±Inf does not occur for the magnitudes the
+harness produces (|value| < 2⁴⁴). -/
+def roundF32 (fx : Int) : Int :=
+  let n := fx.natAbs
+  let bl := bitLen n
+  if bl ≤ 24 then fx else
+  let e := bl - 24
+  let q := n >>> e
+  let rem := n - (q <<< e)
+  let half := 1 <<< (e - 1)
+  let q' := if rem > half then q + 1 else if rem < half then q else (if q % 2 == 1 then q + 1 else q)
+  let r : Int := (q' <<< e : Nat)
+  if fx < 0 then -r else r
+
 /-- Parse an optionally signed decimal integer (used by the driver's token reader only). -/
 def parseIntTok (s : String) : Option Int := s.toInt?
 
